@@ -2,6 +2,7 @@
 #include "worlds/engine_world.h"
 #include "worlds/queue_world.h"
 #include "worlds/bs_world.h"
+#include "worlds/fileinfo_world.h"
 
 namespace runner {
 World* makeWorld(const std::string& property) {
@@ -9,6 +10,7 @@ World* makeWorld(const std::string& property) {
       property == "C06" || property == "C07")
     return wa::makeEngineWorld(property);
   if (property == "C16") return wc::makeQueueWorld();
+  if (property == "C13") return wf::makeFileInfoWorld();
   if (property == "C08" || property == "C09" || property == "C10" || property == "C11" || property == "C12" || property == "C14")
     return wb::makeBsWorld(property);
   return nullptr;
